@@ -30,6 +30,11 @@ VERIFIERS = {
 
 def run(ctx):
     P = ctx.P
+    # 0. KeyValidate: the identity key is refused before the pairing equation is consulted (with key and signature both
+    #    the identity the equation holds for every message); an assertion that exists only in debug builds is not a check
+    for fk0 in ("BlsSignatureCore::core_verify", "BlsSignatureCore::core_aggregate_verify"):
+        R.check_result_guard(ctx, "E4.keyvalidate", P, fk0, "is_identity", ("param", "sig"))
+    R.check_result_guard(ctx, "E4.keyvalidate", P, "BlsSignatureCore::core_verify", "is_identity", ("param", "pk"))
     # 1. accept only through the pairing test
     for fk in ("BlsSignatureCore::core_verify", "BlsSignatureCore::core_aggregate_verify"):
         f = ctx.need_fn("E4.pairing", fk)
